@@ -735,7 +735,10 @@ def rule_totality(ctx, rep):
               "addr_fields": [("RekeyTo", "txn RekeyTo"), ("Sender", "txn Sender")],
               "txn_types": [("TransactionType", "txn TypeEnum"), ("TransactionType", "txn OnCompletion"), ("TransactionType", "txn ApplicationID")]}
     comparands = ["int 0", "int 7", "int 255", "int 18446744073709551615", "int pay", "int appl", "int NoOp", "int DeleteApplication", "int unknown",
-                  "pushint 6", "byte 0x00", f"addr {LIT}", "global ZeroAddress", "txn Amount", "load 0", "gtxn 1 TypeEnum", "int 1", None]
+                  "pushint 6", "byte 0x00", f"addr {LIT}", "global ZeroAddress", "txn Amount", "load 0", "gtxn 1 TypeEnum", "int 1", None,
+                  # byte constants in every spelling the assembler accepts (a string literal is kept as written, the others become hexadecimal)
+                  'byte "admin"', 'byte ""', "byte base64(AAEC)", "byte b32 AEBA", "byte 0x", 'pushbytes "zz"', "pushbytes 0x0001", "byte base32(" + "A" * 52 + ")",
+                  "byte 0x" + "00" * 32, "method \"f()void\""]
     n = 0
     for modname, cls in an.items():
         me = Obj(cls)
